@@ -1333,6 +1333,33 @@ func (w *cryC10) full(secret string, rb, kb, nb []byte, kind string) {
 	proofDLEQ("tampered-A", D(eh, sh, rh), secret, Ch, w.otherPoint(K), 0)
 	proofDLEQ("tampered-C", D(eh, sh, rh), secret, hex.EncodeToString(w.otherPoint(C).SerializeCompressed()), K, 0)
 	proofDLEQ("tampered-secret", D(eh, sh, rh), secret+"x", Ch, K, 0)
+
+	// the batch verifier the wallet uses on received tokens: the keyset's key for the proof's amount decides, whatever
+	// keyset id the proof is labelled with (the label is not authenticated); checked on the Go result only
+	for _, lbl := range []string{"00aa", "00bb-another-keyset-id"} {
+		ks := crypto.WalletKeyset{Id: "00aa", PublicKeys: map[uint64]*secp256k1.PublicKey{1: K}}
+		rogue := crypto.WalletKeyset{Id: "00aa", PublicKeys: map[uint64]*secp256k1.PublicKey{1: w.otherPoint(K)}}
+		good := cashu.Proofs{{Amount: 1, Id: lbl, Secret: secret, C: Ch, DLEQ: D(eh, sh, rh)}}
+		bad := cashu.Proofs{{Amount: 1, Id: lbl, Secret: secret, C: Ch, DLEQ: D(eh, hex.EncodeToString(cryAddOne(s).Serialize()), rh)}}
+		batch := func(ps cashu.Proofs, k crypto.WalletKeyset) (ok bool) {
+			defer func() {
+				if recover() != nil {
+					ok = false
+				}
+			}()
+			return nut12.VerifyProofsDLEQ(ps, k)
+		}
+		sink.Stat("nut12.VerifyProofsDLEQ-label-" + lbl)
+		if !batch(good, ks) {
+			sink.Violate("c10-nut12-batch-honest-rejected:label="+lbl, "VerifyProofsDLEQ refused an honest proof", "", replay)
+		}
+		if batch(bad, ks) {
+			sink.Violate("c10-nut12-batch-tampered-accepted:label="+lbl, "VerifyProofsDLEQ accepted a proof whose DLEQ s was changed", "", replay)
+		}
+		if batch(good, rogue) {
+			sink.Violate("c10-nut12-batch-wrong-key-accepted:label="+lbl, "VerifyProofsDLEQ accepted a proof against a keyset that publishes another key", "", replay)
+		}
+	}
 	proofDLEQ("no-r", D(eh, sh, ""), secret, Ch, K, 0)
 	proofDLEQ("C-not-hex", D(eh, sh, rh), secret, Ch[:65], K, 0)
 	proofDLEQ("r-with-trailing-bytes", D(eh, sh, rh+"00"), secret, Ch, K, -1) // documented malleability
